@@ -48,6 +48,8 @@ import Rl.Lemmas.AlphaLM
 import Rl.Lemmas.CharSearch
 import Rl.Lemmas.EditorNextRet
 import Rl.Lemmas.LBFaithful
+import Rl.Lemmas.RenderLogReturn
+import Rl.Lemmas.ReturnNoHint
 open Rl Rl.Spec
 
 /-- **`calculate_position` is where printing ends.**  If the loop state `p` and the terminal cursor agree
@@ -838,3 +840,168 @@ theorem C02_alpha_ops (S : Segmenter) (U : UData) (A : Char → Bool) :
   ⟨fun _ n h => aop_insert h n, fun i _ h => AOp.insertStr S U i h, fun _ n h => aop_yank h n,
    fun k t h => aop_yankPop k t h, fun m => aop_kill m, aop_transposeChars, fun n => aop_transposeWords n,
    fun t p h => aop_update t p h, fun a b _ h => AOp.replace S U a b h⟩
+
+/-! ### when the read returns (round 17)
+
+  `C02_final` / `C02_final_full` are single steps from a state that is assumed to be in sync; `C02_editor_shows`
+  speaks of the callbacks.  Below, the last clause of the property — "when the read returns, the cursor is after the
+  last character of the line so that application output starts on a fresh row" — is proved of the editor model's own
+  log, for every input: `Rl/Lemmas/RenderLogReturn.lean` keeps the screen invariant `Sh` for the state in which
+  `readline_edit` returns `Ok` and shows that the final `edit_move_buffer_end` leaves the cursor at the end of the
+  buffer. -/
+
+/-- the full clause: whenever the body of `readline_edit` (`Rl.readProg`: initial text, first repaint, main loop,
+    final `edit_move_buffer_end`) returns normally in state `s` — `readline` then answers the line `s.line.buf` —, the
+    whole render log of the read, the final `writeln` included, replays without panic; the terminal that interpreted
+    everything before that newline shows the prompt and the returned line, **without a hint**, with the cursor after
+    the last character of the line; and after the newline the cursor is on column 0, no wrap pending, on a row below
+    the row on which the text ends. -/
+def C02_editor_return_statement : Prop :=
+  ∀ (S : Segmenter) (U : UData) (cfg : EdCfg) (ring : KillRing) (left right : Text) (inp : Input),
+    2 ≤ cfg.cols → C02_Plain S (edR U cfg) cfg.prompt → C02_CtlZero U →
+    LogPlain S (edR U cfg) cfg.prompt (C02_editorLog S U cfg ring left right inp).reverse →
+    cfg.indentSize ≤ 255 →
+    ∀ s : Ed, readProg S U cfg left right inp (initEd cfg ring inp) = .ok ((), s) →
+    (readline S U cfg ring left right inp).1 = .line s.line.buf ∧
+    ∃ rs : RS, RS.run S (edR U cfg) cfg.prompt (RS.init S (edR U cfg) cfg.prompt)
+          (readline S U cfg ring left right inp).2.render.reverse = (rs.emit ['\n'], false) ∧
+      Shows (edR U cfg).cw ((Term.blank (edR U cfg).cols).feed (edR U cfg).cw rs.all) cfg.prompt s.line.buf [] [] ∧
+      ((Term.blank (edR U cfg).cols).feed (edR U cfg).cw (rs.emit ['\n']).all).cc = 0 ∧
+      ((Term.blank (edR U cfg).cols).feed (edR U cfg).cw (rs.emit ['\n']).all).pending = false ∧
+      ((Term.blank (edR U cfg).cols).feed (edR U cfg).cw (rs.emit ['\n']).all).cr >
+        ((Term.blank (edR U cfg).cols).feed (edR U cfg).cw (cfg.prompt ++ s.line.buf)).cr
+
+/-- **When the read returns with a line, application output starts on a fresh row** — proved of the editor model's
+    own log, for every key sequence, both key maps, every segmenter / width table and every width ≥ 2, under the
+    hypotheses of `C02_editor_shows` (texts of the quantified kind, `indentSize ≤ 255`, control characters of width
+    0).  If the body of `readline_edit` returns normally in state `s`, then `readline` answers `s.line.buf`; the whole
+    render log with the final `writeln` replays without panic and writes what the log before it wrote plus one
+    newline; the terminal that interpreted everything before that newline shows the read's own prompt and the whole
+    returned line with the cursor **after its last character** (the insertion point of `prompt ++ line`), nothing left
+    over; and after the newline the cursor is on column 0, no wrap pending, on a row strictly below the row on which
+    `prompt ++ line` ends.
+    Compared with `C02_editor_return_statement` this first stage leaves the hint open: it gives "the hint of the final
+    state or no hint" (`h`).  When the final state has no hint (`s.hint = none`) that is the full clause
+    (`C02_editor_return_nohint`), and that a normal return carries no hint is `C02_return_state_no_hint`; the full
+    clause is `C02_editor_return`. -/
+theorem C02_editor_return_partial (S : Segmenter) (U : UData) (cfg : EdCfg) (ring : KillRing) (left right : Text)
+    (inp : Input) (hc : 2 ≤ cfg.cols) (hprompt : C02_Plain S (edR U cfg) cfg.prompt)
+    (hctl : C02_CtlZero U)
+    (hplain : LogPlain S (edR U cfg) cfg.prompt (C02_editorLog S U cfg ring left right inp).reverse)
+    (hind : cfg.indentSize ≤ 255)
+    (s : Ed) (hret : readProg S U cfg left right inp (initEd cfg ring inp) = .ok ((), s)) :
+    (readline S U cfg ring left right inp).1 = .line s.line.buf ∧
+    ∃ (rs : RS) (h : Text), (h = s.hint.getD [] ∨ h = []) ∧
+      RS.run S (edR U cfg) cfg.prompt (RS.init S (edR U cfg) cfg.prompt)
+          (readline S U cfg ring left right inp).2.render.reverse = (rs.emit ['\n'], false) ∧
+      Shows (edR U cfg).cw ((Term.blank (edR U cfg).cols).feed (edR U cfg).cw rs.all) cfg.prompt s.line.buf [] h ∧
+      ((Term.blank (edR U cfg).cols).feed (edR U cfg).cw (rs.emit ['\n']).all).cc = 0 ∧
+      ((Term.blank (edR U cfg).cols).feed (edR U cfg).cw (rs.emit ['\n']).all).pending = false ∧
+      ((Term.blank (edR U cfg).cols).feed (edR U cfg).cw (rs.emit ['\n']).all).cr >
+        ((Term.blank (edR U cfg).cols).feed (edR U cfg).cw (cfg.prompt ++ s.line.buf)).cr := by
+  have hbd := C02_logBd S U cfg ring left right inp hind
+  have hfine := (logFine_iff S (edR U cfg) cfg.prompt _).2 ⟨hplain, hbd⟩
+  have hlb : LBFaithful S U := C02_lbFaithful S U
+  have hnext := fun fuel sea iep => pres_nextCmd (S := S) (U := U) (cfg := cfg) hc hprompt fuel sea iep
+  obtain ⟨hsh, hpos⟩ := readProg_returns hc hprompt hnext (fun fuel => pres_completeLine hc hprompt hlb hnext fuel)
+    hctl (fun cmd => pres_execute hc hprompt hlb hctl cmd) ring left right inp hret
+  have hrl := readline_eq_readProg S U cfg ring left right inp
+  rw [hret] at hrl
+  simp only [] at hrl
+  have hlog : C02_editorLog S U cfg ring left right inp = s.render.reverse := by
+    unfold C02_editorLog; rw [hrl]; rfl
+  rw [hlog, List.reverse_reverse] at hfine
+  obtain ⟨rs, g, hcore, hsplit⟩ := hsh hfine
+  have hinv : C02_Inv S (edR U cfg) cfg.prompt rs g := hcore.rep.inv hc hprompt
+  have hrun : RS.run S (edR U cfg) cfg.prompt (RS.init S (edR U cfg) cfg.prompt) s.render.reverse = (rs, false) :=
+    (RepFrom.coherent hcore.rep).2
+  have hfull : splitAtByte s.line.buf (blen s.line.buf) = some (s.line.buf, []) := by
+    have := splitAtByte_append s.line.buf []
+    rwa [List.append_nil] at this
+  rw [hpos, hfull] at hsplit
+  injection hsplit with hsplit
+  injection hsplit with e1 e2
+  have hshow := C02_synced_shows (edR U cfg) _ _ _ _ _ _ hinv.synced
+  rw [hcore.own, ← e1, ← e2] at hshow
+  refine ⟨by rw [hrl], rs, g.hint, hcore.hint, ?_, hshow, ?_⟩
+  · rw [hrl]
+    show RS.run S (edR U cfg) cfg.prompt _ (RenderOp.writeln :: s.render).reverse = _
+    rw [List.reverse_cons]
+    exact RS.run_snoc_writeln S (edR U cfg) cfg.prompt _ _ _ hrun
+  · have hall : (rs.emit ['\n']).all = rs.all ++ ['\n'] := by
+      simp [RS.all, RS.emit, List.append_assoc]
+    rw [hall, Term.feed_append]
+    have hcols := hinv.synced.cols
+    generalize (Term.blank (edR U cfg).cols).feed (edR U cfg).cw rs.all = t0 at hshow hcols ⊢
+    obtain ⟨_, hcur, _, hps⟩ := hshow
+    have hstep : t0.feed (edR U cfg).cw ['\n'] = { t0 with cr := t0.cr + 1, cc := 0, pending := false } :=
+      step_newline (edR U cfg).cw t0 hps
+    rw [hstep]
+    refine ⟨rfl, rfl, ?_⟩
+    unfold insertionPoint at hcur
+    rw [hcols] at hcur
+    simp only [] at hcur
+    split at hcur
+    · have := (Prod.mk.inj hcur).1
+      show t0.cr + 1 > _
+      omega
+    · have := (Prod.mk.inj hcur).1
+      show t0.cr + 1 > _
+      omega
+
+/-- **… the full clause whenever the returning state carries no hint**: `C02_editor_return_statement`'s conclusion
+    from the additional hypothesis `s.hint = none` (discharged by `C02_return_state_no_hint`). -/
+theorem C02_editor_return_nohint (S : Segmenter) (U : UData) (cfg : EdCfg) (ring : KillRing) (left right : Text)
+    (inp : Input) (hc : 2 ≤ cfg.cols) (hprompt : C02_Plain S (edR U cfg) cfg.prompt)
+    (hctl : C02_CtlZero U)
+    (hplain : LogPlain S (edR U cfg) cfg.prompt (C02_editorLog S U cfg ring left right inp).reverse)
+    (hind : cfg.indentSize ≤ 255)
+    (s : Ed) (hret : readProg S U cfg left right inp (initEd cfg ring inp) = .ok ((), s))
+    (hnohint : s.hint = none) :
+    (readline S U cfg ring left right inp).1 = .line s.line.buf ∧
+    ∃ rs : RS, RS.run S (edR U cfg) cfg.prompt (RS.init S (edR U cfg) cfg.prompt)
+          (readline S U cfg ring left right inp).2.render.reverse = (rs.emit ['\n'], false) ∧
+      Shows (edR U cfg).cw ((Term.blank (edR U cfg).cols).feed (edR U cfg).cw rs.all) cfg.prompt s.line.buf [] [] ∧
+      ((Term.blank (edR U cfg).cols).feed (edR U cfg).cw (rs.emit ['\n']).all).cc = 0 ∧
+      ((Term.blank (edR U cfg).cols).feed (edR U cfg).cw (rs.emit ['\n']).all).pending = false ∧
+      ((Term.blank (edR U cfg).cols).feed (edR U cfg).cw (rs.emit ['\n']).all).cr >
+        ((Term.blank (edR U cfg).cols).feed (edR U cfg).cw (cfg.prompt ++ s.line.buf)).cr := by
+  obtain ⟨h1, rs, h, hh, h2, h3, h4⟩ :=
+    C02_editor_return_partial S U cfg ring left right inp hc hprompt hctl hplain hind s hret
+  have : h = [] := by
+    rcases hh with hh | hh
+    · rw [hh, hnohint]; rfl
+    · exact hh
+  subst this
+  exact ⟨h1, rs, h2, h3, h4⟩
+
+def C02_retU : UData :=
+  { alnum := Char.isAlphanum, ws := Char.isWhitespace, upper := fun c => [c], lower := fun c => [c],
+    width := List.length }
+
+/-- non-vacuity of the return hypothesis: typing `a`, Enter makes the body of `readline_edit` return normally, with
+    the line `a` and without a hint -/
+example :
+    (readProg C02_cexSeg C02_retU { vi := false } [] [] { buf := [], avail := [], future := [[0x61], [0x0d]] }
+        (initEd { vi := false } (KillRing.new 60) { buf := [], avail := [], future := [[0x61], [0x0d]] })).toOption.map
+      (fun r => (r.2.line.buf, r.2.hint)) = some (['a'], none) := by decide +kernel
+
+/-- **A read that returns a line returns without a hint**: whenever the body of `readline_edit` returns normally, the
+    editor state has no hint — for every segmenter, Unicode data, configuration (either key map, any helper), kill
+    ring, initial text and input, with no hypothesis.  (`Rl/Lemmas/ReturnNoHint.lean`: the main loop returns normally
+    only after `execute` answered `Submit`; `execute` answers `Submit` only for `AcceptLine`, `AcceptOrInsertLine` and
+    vi's `EndOfFile` on a non-empty line, each after `refresh_line_with_msg` cleared a hint that was there; `validate`
+    and the final `edit_move_buffer_end` do not bring one back.) -/
+theorem C02_return_state_no_hint (S : Segmenter) (U : UData) (cfg : EdCfg) (ring : KillRing) (left right : Text)
+    (inp : Input) (s : Ed) (hret : readProg S U cfg left right inp (initEd cfg ring inp) = .ok ((), s)) :
+    s.hint = none :=
+  readProg_nohint ring left right inp hret
+
+/-- **When the read returns with a line, the terminal shows prompt and line without a hint, the cursor is after the
+    last character, and application output starts on a fresh row** — `C02_editor_return_statement` is a theorem:
+    `C02_editor_return_partial` with `C02_return_state_no_hint`.  Hypotheses as for `C02_editor_shows`: width ≥ 2,
+    prompt and logged texts of the quantified kind, control characters of width 0, `indentSize ≤ 255`. -/
+theorem C02_editor_return : C02_editor_return_statement :=
+  fun S U cfg ring left right inp hc hprompt hctl hplain hind s hret =>
+    C02_editor_return_nohint S U cfg ring left right inp hc hprompt hctl hplain hind s hret
+      (C02_return_state_no_hint S U cfg ring left right inp s hret)
